@@ -102,3 +102,28 @@ package dnsutil
 //@   assert at return: msgOPT(req) != nil && len(result0.Option) == 1 ==> calls("(*internal/ecs.Policy).Clamp") == 1 && calls("(*internal/ecs.Policy).Allows") == 1
 //@   assert at store dns.OPT.Option#1: len(value) == 0
 //@   assert at call (*internal/ecs.Policy).Clamp#1: clientSubnet != nil && arg1 == clientSubnet && len(opt.Option) == 0
+//@
+//@ # ---- C01 / C02: zone containment for validation. A name is inside a zone iff the zone is the root, the name is the
+//@ # zone, or the name ends in "." + zone where that dot is a label separator (preceded by an even number of backslashes)
+//@ recspec bsRunZ(name string, i int) int := ite(i < 0 || i >= len(name) || name[i] != 92, 0, 1 + bsRunZ(name, i - 1))
+//@ pred inZone(name string, zone string) := zone == "." || zone == "" || name == zone || (len(name) > len(zone) && name[len(name) - len(zone) - 1] == '.' && name[len(name) - len(zone):len(name)] == zone && !(bsRunZ(name, len(name) - len(zone) - 2) % 2 == 1))
+//@
+//@ func escapedDot
+//@   requires 0 <= i && i <= len(name)
+//@   modifies nothing
+//@   ensures result == (bsRunZ(name, i - 1) % 2 == 1)
+//@   loop 1 invariant -1 <= j && j <= i - 1 && backslashes == i - 1 - j
+//@   loop 1 invariant backslashes + bsRunZ(name, j) == bsRunZ(name, i - 1)
+//@   loop 1 decreases j + 1
+//@
+//@ func NameInZone
+//@   modifies nothing
+//@   ensures result == inZone(name, zone)
+//@
+//@ # only records owned inside the validated signer zone survive the filter (for NSEC also the next-owner field)
+//@ pred rrInZone(rr dns.RR, zone string) := inZone(canon(hdrOf(rr).Name), canon(zone)) && (dyntype(rr, *dns.NSEC) ==> inZone(canon(as(rr, *dns.NSEC).NextDomain), canon(zone)))
+//@ func FilterRRsToZone
+//@   requires forall i int :: {rrs[i]} 0 <= i && i < len(rrs) ==> rrs[i] != nil && (dyntype(rrs[i], *dns.NSEC) ==> as(rrs[i], *dns.NSEC) != nil)
+//@   loop 1 invariant len(out) <= rangeidx && cap(out) == len(rrs) && forall j int :: {out[j]} 0 <= j && j < len(out) ==> rrInZone(out[j], zone)
+//@   loop 1 invariant forall i int :: {rrs[i]} 0 <= i && i < len(rrs) ==> rrs[i] != nil && (dyntype(rrs[i], *dns.NSEC) ==> as(rrs[i], *dns.NSEC) != nil)
+//@   ensures forall j int :: {result[j]} 0 <= j && j < len(result) ==> rrInZone(result[j], zone)
